@@ -1,20 +1,24 @@
-import HeimdallModel.Model.Factory
+import HeimdallModel.Model.FactoryOverride
 /-!
 # What a loaded rule *does*: the executed trace for the probe requests of the C14 correspondence check
 
 The correspondence check does not look into the private slices of `ruleImpl`; it sends requests through the real
 repository and rule and records which mechanisms ran.  This file says what those records must be for an effective
-rule, given how the mechanisms of the check's catalogue show themselves:
+rule, given how the mechanisms of the check's catalogue show themselves (`Shown`, `Model/FactoryOverride.lean`: for
+every mechanism of a pipeline `sh m` is what the catalogue entry shows, overlaid with the override *value* the
+step carries):
 
 * authenticators — flavour `remote` (heimdall's `generic` authenticator calling the loopback recorder: the call is
   recorded, it succeeds iff the probe lets authentication succeed, on failure the next authenticator is tried
-  unless the override with tag 1 switched `allow_fallback_on_error` off) or `constant` (`anonymous`: nothing
-  recorded, always succeeds);
-* authorizers / contextualizers — `remote` / `generic` calling the recorder with the subject and a value that an
-  override (tag 1) changes; skipped when their condition is false for the probe;
-* finalizers — `header` finalizers appending `<id>/<subject>/<variant>` to one upstream header;
-* error handlers — `redirect` (flavour `redirect`, the location names the handler) or `default`
-  (flavour `passthrough`, the pipeline error is kept); the first applicable one handles the error, with none the
+  unless the variant has `allow_fallback_on_error` off) or `constant` (`anonymous`: nothing recorded, always
+  succeeds with the subject it shows);
+* authorizers / contextualizers — `remote` / `generic` calling the recorder with the subject and the value `v` of
+  their `values`; skipped when their condition is false for the probe;
+* finalizers — `header` finalizers: every header they show is rendered (`{{ .Subject.ID }}`) and added for the
+  upstream; the common header `X-Fin` is reported in execution order (`fin`), all others sorted (`hdr`);
+* error handlers — `redirect` (flavour `redirect`, the location names the handler), `default` (flavour
+  `passthrough`, the pipeline error is kept) or `www_authenticate` (flavour `challenge`: authentication error and a
+  `WWW-Authenticate` header naming the realm it shows); the first applicable one handles the error, with none the
   error is returned.
 
 These are the execution rules of `ruleImpl.Execute` and the composite pipelines specialised to that catalogue;
@@ -24,7 +28,7 @@ namespace Heimdall.Factory
 
 /-- how a catalogue mechanism shows itself -/
 inductive Flavour
-  | remote | constant | redirect | passthrough
+  | remote | constant | redirect | passthrough | challenge
   deriving DecidableEq, Repr, Inhabited
 
 abbrev Flavours := Kind → String → Flavour
@@ -39,50 +43,67 @@ structure Probe where
 structure Trace where
   calls : List String := []
   fin : List String := []
+  hdr : List String := []
   ret : String := ""
   perr : String := ""
   upstream : Bool := false
   deriving DecidableEq, Repr, Inhabited
 
-def Mech.variant (m : Mech) : String := if m.config == some 1 then "ovr" else "base"
+/-- what every mechanism of a pipeline shows -/
+abbrev Showing := Mech → Shown
 
 def Mech.runs (m : Mech) (p : Probe) : Bool := !(m.conditional && p.skip)
 
+/-- `text/template` on the fragment in use: the action `{{ .Subject.ID }}` -/
+def renderTemplate (sub : String) (tmpl : Text) : String := (String.ofList tmpl).replace "{{ .Subject.ID }}" sub
+
 /-- authentication stage: recorded calls and the subject, if any authenticator succeeded -/
-def authnStage (fl : Flavours) (p : Probe) : List Mech → List String × Option String
+def authnStage (sh : Showing) (fl : Flavours) (p : Probe) : List Mech → List String × Option String
   | [] => ([], none)
   | m :: ms =>
-    if fl .authn m.id == .constant then ([], some (if m.config == some 1 then "ovr" else "anon"))
+    if fl .authn m.id == .constant then ([], some (String.ofList (sh m).subject))
     else
       let call := "authn:" ++ m.id
       if p.authnOk then ([call], some m.id)
-      else if m.config == some 1 then ([call], none)
+      else if !(sh m).fallback then ([call], none)
       else
-        let rest := authnStage fl p ms
+        let rest := authnStage sh fl p ms
         (call :: rest.1, rest.2)
 
-/-- error pipeline: first applicable handler; `(returned error, pipeline error)` -/
-def errorStage (fl : Flavours) (p : Probe) (kind : String) : List Mech → String × String
-  | [] => (kind, "")
+/-- error pipeline: first applicable handler; `(returned error, pipeline error, headers)` -/
+def errorStage (sh : Showing) (fl : Flavours) (p : Probe) (kind : String) : List Mech → String × String × List String
+  | [] => (kind, "", [])
   | m :: ms =>
-    if !m.runs p then errorStage fl p kind ms
-    else if fl .eh m.id == .passthrough then ("", kind)
-    else ("", "redirect:http://eh.test/" ++ m.id)
+    if !m.runs p then errorStage sh fl p kind ms
+    else if fl .eh m.id == .passthrough then ("", kind, [])
+    else if fl .eh m.id == .challenge then
+      ("", "authentication", ["Www-Authenticate=Basic realm=" ++ String.ofList (sh m).realm])
+    else ("", "redirect:http://eh.test/" ++ m.id, [])
 
-def handlerCalls (p : Probe) (sub : String) (ms : List Mech) : List String :=
+def handlerCalls (sh : Showing) (p : Probe) (sub : String) (ms : List Mech) : List String :=
   (ms.filter (·.runs p)).map fun m =>
-    (if m.kind == .ctx then "ctx:" else "authz:") ++ m.id ++ ":" ++ sub ++ "/" ++ m.variant
+    (if m.kind == .ctx then "ctx:" else "authz:") ++ m.id ++ ":" ++ sub ++ "/" ++
+      renderTemplate sub (((sh m).values.lookup t!"v").getD [])
 
-def finalizerMarks (p : Probe) (sub : String) (ms : List Mech) : List String :=
-  (ms.filter (·.runs p)).map fun m => m.id ++ "/" ++ sub ++ "/" ++ m.variant
+/-- the headers the finalizers that run add for the upstream: (name, rendered value), in execution order -/
+def finalizerHeaders (sh : Showing) (p : Probe) (sub : String) (ms : List Mech) : List (String × String) :=
+  (ms.filter (·.runs p)).flatMap fun m => (sh m).headers.map fun h => (String.ofList h.1, renderTemplate sub h.2)
+
+/-- `Name=value[,value]` for every header name but `X-Fin`, sorted -/
+def otherHeaders (hs : List (String × String)) : List String :=
+  let names := (hs.map (·.1)).eraseDups.filter (· != "X-Fin")
+  let lines := names.map fun n => n ++ "=" ++ ",".intercalate ((hs.filter (·.1 == n)).map (·.2))
+  (lines.toArray.qsort (· < ·)).toList
 
 /-- `ruleImpl.Execute` on a probe -/
-def execute (fl : Flavours) (e : Effective) (p : Probe) : Trace :=
-  match authnStage fl p e.authn with
+def execute (sh : Showing) (fl : Flavours) (e : Effective) (p : Probe) : Trace :=
+  match authnStage sh fl p e.authn with
   | (calls, none) =>
-    let r := errorStage fl p "communication" e.eh
-    { calls := calls, ret := r.1, perr := r.2 }
+    let r := errorStage sh fl p "communication" e.eh
+    { calls := calls, ret := r.1, perr := r.2.1, hdr := r.2.2 }
   | (calls, some sub) =>
-    { calls := calls ++ handlerCalls p sub e.sh, fin := finalizerMarks p sub e.fin, upstream := e.upstream }
+    let hs := finalizerHeaders sh p sub e.fin
+    { calls := calls ++ handlerCalls sh p sub e.sh, fin := (hs.filter (·.1 == "X-Fin")).map (·.2),
+      hdr := otherHeaders hs, upstream := e.upstream }
 
 end Heimdall.Factory
